@@ -11,9 +11,11 @@ CONSTANTS
   MaxLen = 3
   MaxParams = 4
   MaxOuter = 2
+  MaxOuterLen = 3
+  LenRots = {0, 6}
   MaxSeq = 3
   MaxSeqDep = 2
   MemDeps = "few"
-  MemRots = {0, 1, 2, 3, 4, 5, 6, 7, 8, 9, 10}
+  MemRots = {0, 1, 2, 3, 4, 5, 6, 7, 8, 9, 10, 11, 12, 13}
 INVARIANTS ClausesHold Replayable NoCallAfterFailure StagesInOrderOnce ErrorOnlyFromFailure MemInvariants PlumbInvariants StringInvariants Export
 CHECK_DEADLOCK FALSE
